@@ -34,6 +34,9 @@ type c01Replay struct {
 // order-independence comparison.
 func c01Eval(c *core.Ctx, part string, b gen.Book, order []int, entry, depth int, want model.Resolved, abs map[string]map[string]*big.Rat, exact bool) string {
 	db := buildDB(b, order)
+	if entry >= 2 {
+		db = buildDBShared(b, order)
+	}
 	c.Eval(1)
 	fail := func(class, msg string) {
 		c.Violation(fmt.Sprintf("resolve entry%d|%s", entry, class), msg,
@@ -353,7 +356,8 @@ func runC01(c *core.Ctx) {
 			snaps := map[string]bool{}
 			for k := 0; k < 6; k++ {
 				order := r.Perm(len(b))
-				for entry := 0; entry < 2; entry++ {
+				for entry := 0; entry < 4; entry++ {
+					// entries 2 and 3: the two entry points on a book whose ingredient lists are windows of one table
 					snap := c01Eval(c, "random", b, order, entry, depthLimit, want, abs, exact)
 					if snap != "" {
 						snaps[snap] = true
